@@ -181,6 +181,30 @@ pub fn generate(rng: &mut Rng, thorough: bool) -> Vec<String> {
             }
         }
     }
+    // short digit strings that read as a time AND as a month-day or year-month: the whole HHMM / HH:MM / MM-DD /
+    // --MM-DD space (every boundary of the ambiguity rule: day 28..31, month 12/13, hour 23/24) and a dense sample of
+    // six-digit HHMMSS / YYYYMM strings, with and without the `T` designator and annotations
+    for h in 0..=24u32 {
+        for m in 0..=60u32 {
+            if !thorough && !(h <= 13 || h >= 23) && !(m <= 1 || (27..=33).contains(&m) || m >= 58) && (h * 61 + m) % 7 != (rng.next() % 7) as u32 {
+                continue;
+            }
+            for s in [format!("{h:02}{m:02}"), format!("{h:02}:{m:02}"), format!("{h:02}-{m:02}"), format!("--{h:02}-{m:02}"), format!("--{h:02}{m:02}"), format!("T{h:02}{m:02}"), format!("{h:02}{m:02}[u-ca=iso8601]")] {
+                for ty in ["time", "monthday", "yearmonth"] {
+                    v.push(format!("p_{ty} {}", hex(s.as_bytes())));
+                }
+            }
+        }
+    }
+    for _ in 0..(if thorough { 6000 } else { 800 }) {
+        let (a, b, c) = (rng.range(0, 24), rng.range(0, 60), *rng.pick(&[0i128, 1, 2, 11, 12, 13, 30, 59, 60]));
+        let s6 = format!("{a:02}{b:02}{c:02}");
+        for s in [s6.clone(), format!("T{s6}"), format!("{a:02}{b:02}-{c:02}"), format!("{s6}Z"), format!("{s6}+01:00")] {
+            for ty in ["time", "yearmonth", "monthday"] {
+                v.push(format!("p_{ty} {}", hex(s.as_bytes())));
+            }
+        }
+    }
     v
 }
 
